@@ -5,7 +5,7 @@ V = os.path.dirname(os.path.dirname(os.path.abspath(__file__)))
 EXCL = {
  'C01': 'IEEE rounding (real field)', 'C02': 'IEEE rounding', 'C03': 'IEEE rounding; integer overflow (inputs bounded)', 'C04': 'IEEE rounding', 'C05': 'IEEE rounding',
  'C06': 'IEEE rounding; trigonometric functions are axiomatised, not evaluated',
- 'C07': 'IEEE rounding; the four z-dependent entries of the 0.13 gimbal bound',
+ 'C07': 'IEEE rounding; the four z-dependent entries of the 0.13 gimbal bound away from the exact poles',
  'C08': 'IEEE rounding; Matrix4 composition laws on vectors for non-affine matrices (false there)',
  'C09': 'IEEE rounding; Quaternion look_at agreement is compositional (C05 round trip + structural equality)',
  'C10': 'IEEE rounding; degenerate accepted frustum parameters (left = right ...) divide by zero',
